@@ -53,6 +53,7 @@ pub struct Dir {
     pub dropgenerics: bool,
     pub ret: Option<String>,
     pub fold: Option<(String, String)>,
+    pub assumed_from: Option<String>,
 }
 
 pub fn die(kind: &str, detail: &str) -> ! {
@@ -131,6 +132,7 @@ enum Sec {
 
 fn parse_template(t: &str) -> Vec<Result<String, Dir>> {
     let mut out: Vec<Result<String, Dir>> = Vec::new();
+    let mut defines: Vec<String> = Vec::new();
     let mut cur: Option<Dir> = None;
     let mut sec = Sec::None;
     for (ln, line) in t.lines().enumerate() {
@@ -141,6 +143,10 @@ fn parse_template(t: &str) -> Vec<Result<String, Dir>> {
                 Some(i) => (&rest[..i], rest[i..].trim()),
                 None => (rest, ""),
             };
+            if kw == "define" {
+                defines.push(arg.to_string());
+                continue;
+            }
             if kw == "extract" {
                 if cur.is_some() {
                     die("template", &format!("line {}: nested //@extract", ln + 1));
@@ -236,6 +242,15 @@ fn parse_template(t: &str) -> Vec<Result<String, Dir>> {
                 "rename" => d.rename = Some(arg.to_string()),
                 "ghost-field" => d.ghost_fields.push(arg.to_string()),
                 "external_body" => d.external_body = true,
+                "external_body_if" => {
+                    // contract sharing between units: the unit that *verifies* the function includes the block as is,
+                    // a unit that only *relies on its contract* puts `//@define NAME` first
+                    if defines.iter().any(|x| x == arg) {
+                        d.external_body = true;
+                        d.attrs.push("#[verifier::external_body]".to_string());
+                        d.assumed_from = Some(arg.to_string());
+                    }
+                }
                 "novis" => d.novis = true,
                 "ret" => d.ret = Some(arg.to_string()),
                 "dropgenerics" => d.dropgenerics = true,
@@ -1093,7 +1108,7 @@ fn main() {
                 let rules_json: Vec<String> = rules.iter().map(|(k, v)| format!("{}:{}", json_str(k), v)).collect();
                 let tags_json: Vec<String> = d.tags.iter().map(|t| json_str(t)).collect();
                 metas.push(format!(
-                    "{{\"file\":{},\"container\":{},\"item\":{},\"name\":{},\"kind\":{},\"src_lines\":[{},{}],\"gen_lines\":[{},{}],\"rules\":{{{}}},\"tags\":[{}],\"external_body\":{},\"src_text\":{},\"gen_text\":{}}}",
+                    "{{\"file\":{},\"container\":{},\"item\":{},\"name\":{},\"kind\":{},\"src_lines\":[{},{}],\"gen_lines\":[{},{}],\"rules\":{{{}}},\"tags\":[{}],\"external_body\":{},\"assumed_from\":{},\"src_text\":{},\"gen_text\":{}}}",
                     json_str(&d.file),
                     json_str(&d.container),
                     json_str(&d.item),
@@ -1106,6 +1121,7 @@ fn main() {
                     rules_json.join(","),
                     tags_json.join(","),
                     d.external_body,
+                    json_str(d.assumed_from.as_deref().unwrap_or("")),
                     json_str(item_src),
                     json_str(&text),
                 ));
